@@ -150,7 +150,7 @@ def c05_native(config, tier_timeout, judge_panics=0, prop="C05", suffix=""):
     out = []
     for i, part in enumerate(C05_PARTS):
         out.append(native("guard-%s-%s%s" % (config, part, suffix), "C05", config=config, bitmap=(i == 1 and config == "rel"),
-                          timeout=tier_timeout, part=part, panics=judge_panics, **{"as": prop}))
+                          timeout=(min(tier_timeout, 420) if part == "mismatch" else tier_timeout), part=part, panics=judge_panics, **{"as": prop}))
     return out
 
 
